@@ -209,6 +209,7 @@ def c06(A, ctx, tier):
     kernels.r_kernel_eq(A, ctx, dict(floor=12), rule="R-GRAD-EQ",
                         select=lambda f: "construct_grad" in f.name)
     kernels.r_accessor_eq(A, ctx, dict(floor=20))
+    blockpen.r_prox_datafit(A, ctx, dict(floor=15))
     ctx.assume("Cox: the outer composition (gradient == gradient_sparse == X.T @ raw_grad) is decided "
                "for all shapes with the risk-set recursions as opaque operators; the recursions "
                "themselves are decided on six fixed tie / censoring patterns of 3-5 observations "
